@@ -201,6 +201,9 @@ impl Property for C16 {
                             kind: *rng.pick(&ErrKind::READ_KINDS),
                             sticky,
                         });
+                        if k % 8 == 3 {
+                            p.set("rerun_reference_after", 1);
+                        }
                         if let Some(mut v) = check_point(&p, &input, &reference, ctx) {
                             v.reduced = Some(Box::new(p));
                             return Some(v);
@@ -236,6 +239,9 @@ impl Property for C16 {
                                 kind: *rng.pick(&ErrKind::WRITE_KINDS),
                                 sticky,
                             });
+                        }
+                        if k % 8 == 5 {
+                            p.set("rerun_reference_after", 1);
                         }
                         if let Some(mut v) = check_point(&p, &input, &reference, ctx) {
                             v.reduced = Some(Box::new(p));
@@ -305,6 +311,22 @@ fn first_fault_event(events: &[Event], chan: Chan) -> Option<u32> {
 fn check_point(case: &Case, input: &[u8], reference: &RunOut, ctx: &mut Ctx) -> Option<Violation> {
     ctx.sub_begin();
     let r = ctx.exec(case_spec(case, input));
+    if case.param("rerun_reference_after") == 1 {
+        // history: the fault-free run once more, now that a run was cut short in this thread
+        let again = ctx.exec(ref_spec(case, input));
+        if again.outcome.class() != reference.outcome.class() || again.obs.stdout != reference.obs.stdout || again.obs.stderr != reference.obs.stderr {
+            return viol(
+                "C16.history",
+                format!(
+                    "the fault-free run gives a different result after a run that was cut short by a fault in the same process: {} stdout {} vs before {} stdout {}",
+                    again.outcome.describe(),
+                    show(&again.obs.stdout),
+                    reference.outcome.describe(),
+                    show(&reference.obs.stdout)
+                ),
+            );
+        }
+    }
     let rd = r.obs.rfault_delivered;
     let wd = r.obs.out_fault_delivered;
     let ed = r.obs.err_fault_delivered;
